@@ -45,9 +45,23 @@ namespace random_utils {
   static thread_local std::uniform_int_distribution<uint64_t> next_uint64(0, UINT64_MAX);
 
   // thread-safe random bit
+#ifdef DATASKETCHES_VERIF
+  // verification hook: the bit source can be replaced by a harness-supplied function
+  struct verif_random_bit {
+    typedef uint32_t (*source_type)(void*);
+    source_type source = nullptr;
+    void* context = nullptr;
+    std::independent_bits_engine<std::mt19937, 1, uint32_t> engine{static_cast<uint32_t>(
+      std::chrono::system_clock::now().time_since_epoch().count()
+      + std::hash<std::thread::id>{}(std::this_thread::get_id()))};
+    uint32_t operator()() { return source != nullptr ? (source(context) & 1u) : engine(); }
+  };
+  static thread_local verif_random_bit random_bit;
+#else
   static thread_local std::independent_bits_engine<std::mt19937, 1, uint32_t>
     random_bit(static_cast<uint32_t>(std::chrono::system_clock::now().time_since_epoch().count()
       + std::hash<std::thread::id>{}(std::this_thread::get_id())));
+#endif
 
   inline void override_seed(uint64_t s) {
     rand.seed(s);
